@@ -5,6 +5,9 @@
 package c03
 
 import (
+	"bytes"
+	"runtime"
+	"sort"
 	"crypto/ecdsa"
 	"crypto/sha256"
 	"encoding/binary"
@@ -215,6 +218,31 @@ func schedule(c *kit.Ctx, id string, i int) {
 	}
 	rd := new(big.Int).SetUint64(round)
 	commits, boundary := 0, 0
+	// the CommitEvent travels asynchronously to Server.commit, which packs its vote set later:
+	// every announced event is kept and its attached set is weighed again after every later delivery
+	type pendingCommit struct {
+		ev    ucon.CommitEvent
+		h     common.Hash
+		sumAt uint32
+		addrs []common.Address
+	}
+	var pend []*pendingCommit
+	changed := 0
+	recheck := func() {
+		for _, p := range pend {
+			sum := uint32(0)
+			for _, sv := range p.ev.ChamberPrecommits {
+				sum += sv.Votes
+			}
+			if sum != p.sumAt {
+				changed++
+			}
+			if sum < q685(w.T) {
+				w.violation("commit-vote-set-below-quorum:after-announcement", fmt.Sprintf("the vote set carried by the announced CommitEvent of %x weighed %d at the announcement and weighs %d < quorum %d by the time the (asynchronous) consumer packs it", p.h[:3], p.sumAt, sum, q685(w.T)))
+				return
+			}
+		}
+	}
 	ucon.VerifOnVote = func(v *ucon.Voter, vt ucon.VoteType, msg *ucon.BlockHashWithVotes) {
 		if v != w.voter {
 			return
@@ -296,6 +324,14 @@ func schedule(c *kit.Ctx, id string, i int) {
 		if _, err := w.voter.PackVotes(*ev, params.LookBackPos); err != nil {
 			w.violation("commit-pack-votes-failed", "PackVotes on the commit event failed: "+err.Error())
 		}
+		pc2 := &pendingCommit{ev: *ev, h: h, sumAt: sum}
+		for addr := range ev.ChamberPrecommits {
+			if addr != w.me.Addr {
+				pc2.addrs = append(pc2.addrs, addr)
+			}
+		}
+		sort.Slice(pc2.addrs, func(i, j int) bool { return bytes.Compare(pc2.addrs[i][:], pc2.addrs[j][:]) < 0 })
+		pend = append(pend, pc2)
 	}
 	defer func() { ucon.VerifOnVote, ucon.VerifOnCommit = nil, nil }()
 	w.newVoter(youdb.NewMemDatabase())
@@ -337,9 +373,32 @@ func schedule(c *kit.Ctx, id string, i int) {
 			b = w.blocks[r.Intn(len(w.blocks))]
 		}
 		weight := uint32(1 + r.Intn(5))
+		lateEquiv := false
+		if n := len(pend); n > 0 && pend[n-1].ev.RoundIndex == idx && len(pend[n-1].addrs) > 0 && r.Intn(2) == 0 {
+			// a member whose precommit is part of the announced commit now precommits another block
+			// (between the announcement and the moment Server.commit packs the event)
+			p := pend[n-1]
+			a := p.addrs[r.Intn(len(p.addrs))]
+			for _, o := range others {
+				if o.Addr == a {
+					m = o
+				}
+			}
+			vt = ucon.Precommit
+			b = w.blocks[1]
+			if b == p.h {
+				b = w.blocks[2]
+			}
+			lateEquiv = true
+		}
 		signIdx, signRound, sender, signHash := idx, rd, m.Addr, b
 		kind := "valid"
-		switch r.Intn(14) {
+		sw := r.Intn(14)
+		if lateEquiv {
+			sw = 13
+			kinds["late-equivocation-of-commit-member"]++
+		}
+		switch sw {
 		case 0:
 			kind = "bad-signature"
 			signHash = crypto.Keccak256Hash(b[:])
@@ -373,7 +432,18 @@ func schedule(c *kit.Ctx, id string, i int) {
 			w.m.deliver(m.Addr, vt, b, weight)
 		}
 		w.voter.VerifProcessVote(sender, data, vt)
+		recheck()
 	}
+	for _, p := range pend {
+		if w.bad {
+			break
+		}
+		if _, err := w.voter.PackVotes(p.ev, params.LookBackPos); err != nil {
+			w.violation("commit-pack-votes-failed", "PackVotes on the commit event failed at the end of the schedule: "+err.Error())
+		}
+	}
+	c.Count("commit_events_reweighed_later", len(pend))
+	c.Count("commit_set_changed_after_announcement", changed)
 	c.Count("commits", commits)
 	c.Count("equivocations", w.m.equiv)
 	c.Count("boundary_emissions", boundary)
@@ -424,22 +494,33 @@ func runRace(c *kit.Ctx) {
 			w.blocks = append(w.blocks, h)
 		}
 		var mu sync.Mutex
-		emitted := 0
+		emitted, packed := 0, 0
 		ucon.VerifOnVote = func(v *ucon.Voter, vt ucon.VoteType, msg *ucon.BlockHashWithVotes) {
 			mu.Lock()
 			emitted++
 			mu.Unlock()
 		}
+		var wg sync.WaitGroup
 		ucon.VerifOnCommit = func(v *ucon.Voter, ev *ucon.CommitEvent) {
 			mu.Lock()
 			emitted++
+			packed++
 			mu.Unlock()
+			// Server.commit packs the event on another goroutine while the voter keeps counting
+			e2 := *ev
+			wg.Add(1)
+			go func() {
+				defer wg.Done()
+				for k := 0; k < 20; k++ {
+					v.PackVotes(e2, params.LookBackPos)
+					runtime.Gosched()
+				}
+			}()
 		}
 		// maxPrio uses w.r: give it its own lock-free source per call site
 		w.newVoter(youdb.NewMemDatabase())
 		rd := big.NewInt(100)
 		w.voter.VerifUpdateContext(ucon.ContextChangeEvent{Round: rd, RoundIndex: 1, Step: ucon.UConStepPrevote})
-		var wg sync.WaitGroup
 		for g := 0; g < 4; g++ {
 			wg.Add(1)
 			gr := rand.New(rand.NewSource(r.Int63()))
@@ -448,11 +529,19 @@ func runRace(c *kit.Ctx) {
 				for k := 0; k < 25; k++ {
 					m := set.Members[1+gr.Intn(len(set.Members)-1)]
 					vt := []ucon.VoteType{ucon.Prevote, ucon.Precommit, ucon.NextIndex}[gr.Intn(3)]
-					b := w.blocks[gr.Intn(2)]
-					idx := uint32(1 + gr.Intn(2))
+					// mostly one block in one index with heavy weights, so that quorums (and commits) form
+					// while other goroutines keep delivering conflicting votes
+					b := w.blocks[0]
+					if gr.Intn(5) == 0 {
+						b = w.blocks[1]
+					}
+					idx := uint32(1)
+					if gr.Intn(6) == 0 {
+						idx = 2
+					}
 					sig := m.Bls.Sign(forge.VotePayload(b, rd, idx))
 					data := &ucon.BlockHashWithVotes{Priority: crypto.Keccak256Hash(b[:]), BlockHash: b, Round: rd, RoundIndex: idx,
-						Vote: &ucon.SingleVote{VoterIdx: uint32(m.Idx), Votes: uint32(1 + gr.Intn(5)), Signature: sig.Compress().Bytes(), Proof: []byte{9}}}
+						Vote: &ucon.SingleVote{VoterIdx: uint32(m.Idx), Votes: uint32(3 + gr.Intn(5)), Signature: sig.Compress().Bytes(), Proof: []byte{9}}}
 					w.voter.VerifProcessVote(m.Addr, data, vt)
 				}
 			}()
@@ -471,6 +560,7 @@ func runRace(c *kit.Ctx) {
 		c.Evals(100)
 		c.Count("concurrent_runs", 1)
 		c.Count("emissions_under_concurrency", emitted)
+		c.Count("commit_events_packed_concurrently", packed)
 		c.End(fmt.Sprintf("emitted%d", emitted/3))
 	}
 }
